@@ -113,7 +113,7 @@ def models(G):
         z = c["z"]
         return jnp.where(z, math.log(0.4), math.log(0.6)) + norm.logpdf(c["m"], 0.0, 1.0) + \
             norm.logpdf(c["y"], jnp.where(z, c["m"] + 2.0, c["m"] - 1.0), jnp.where(z, 0.5, 1.5))
-    out["mixture-indicator"] = (mix, (), {"y": jnp.float32(1.2)}, [("str", "z"), ("str", "m")], lp_mix)
+    out["mixture-indicator"] = (mix, (), {"y": jnp.float32(1.2)}, [("str", "z"), ("str", "m"), ("union", ("str", "z"), ("str", "m"))], lp_mix)
     return out
 
 
@@ -331,13 +331,13 @@ def run(ctx, audit):
     G = impl.load()
     ms = models(G)
     jobs = []
-    reps = 6 if ctx.thorough else 2
+    reps = 8 if ctx.thorough else 3
     for mname, spec in ms.items():
         for sel_e in spec[3]:
             for r in range(reps):
                 key = ctx.seed * 100 + r
                 jobs.append((mname, sel_e, "mh", key, 0.3, 1))
-                if mname == "mixture-indicator" and sel_e == ("str", "z"):
+                if mname == "mixture-indicator" and sel_e != ("str", "m"):
                     continue    # discrete indicator: no gradient kernels
                 jobs.append((mname, sel_e, "mala", key, [0.05, 0.3][r % 2], 1))
                 jobs.append((mname, sel_e, "hmc", key, [0.05, 0.3][r % 2], [1, 2, 4][r % 3]))
